@@ -271,6 +271,29 @@ func c04(c *ctx) {
 		sc.build(fs, i)
 		t.run(sc)
 	}
+	// frames of a mebibyte and more, handed over by the transport in one piece and read into one
+	// large buffer (the pre-allocating ReadMessage path) as well as in pieces
+	for bi, big := range []int{1<<20 - 1, 1 << 20, 1<<20 + 17, 1<<21 + 5} {
+		for vi, v := range []rvariant{{"reader", nil, -1, false}, {"readmessage", nil, -1, true}, {"readdata", []int{1, 2}, -1, true}} {
+			side := []string{"server", "client"}[(bi+vi)%2]
+			if big >= 1<<20 && big < 1<<21 {
+				side = "server"
+			}
+			fs := []fspec{{Op: 2, Fin: bi%2 == 0, CodedN: big, Pay: []byte{}}}
+			if bi%2 == 1 {
+				fs = append(fs, fspec{Op: 0, Fin: true, CodedN: 33, Pay: []byte{}})
+			}
+			fs = append(fs, fspec{Op: 2, Fin: true, CodedN: 9, Pay: []byte{}})
+			key := fmt.Sprintf("bigframe/%d/%s/%s", big, v.Entry, side)
+			sc := &rscenario{Key: key, Side: side, Coded: true, Cut: -1, CutKind: "eof", Entry: v.Entry, Discard: v.Discard, Want: v.Want,
+				Cbs: v.Entry == "reader", Chunk: [][]int{{}, {1 << 22}, {1 << 20, 5}}[(bi+vi)%3], Buf: []int{1 << 22, 1 << 20, 1<<20 + 64}[vi]}
+			if sc.Want == nil {
+				sc.Want = []int{}
+			}
+			sc.build(fs, 1000+bi)
+			t.run(sc)
+		}
+	}
 	// long runs of frames that carry no message bytes (empty fragments, control frames) inside a message
 	for ri, run := range []int{99, 100, 101, 160} {
 		for mode := 0; mode < 3; mode++ {
